@@ -8,8 +8,9 @@
   `cattrs`/`json` themselves are trusted.
 
   * Python sets are lists; the order of the list is the set's iteration order (hash-seed dependent).
-  * `sorted(xs, key=k)` is `sortBy strLe k xs`, a STABLE insertion sort: ties keep input order,
-    exactly as Python's sort does. That is how the model exhibits the tie-order defect of `-o ir`.
+  * `sorted(xs, key=k)` is `sortBy le k xs`, a STABLE insertion sort: ties keep input order,
+    exactly as Python's sort does. Since a47e117 the four IR sets are sorted on the pair
+    `(s["name"], json.dumps(s, sort_keys=True))`, modelled character for character (`irKey`).
   * Python dicts are insertion-ordered key lists; a dict comprehension is a fold of `Dict.set`
     (an existing key keeps its position and takes the new value).
   * `Location.token`/`Symbol.token` are never serialised (`omit=True` / popped) and are not part of
@@ -255,7 +256,7 @@ def fieldsTargetIr : List Str := [kFilename, kIr]
 def fieldsCacheable : List Str :=
   [kVersion, kArgumentsHash, kPluginsHash, kFilepath, kFilehash, kImports, kResults]
 def fieldsImportInfo : List Str := [kFilepath, kFilehash]
-/-- the key every `sorted(<unstructured symbols>, key=lambda s: s[…])` of the file-IR serialiser uses -/
+/-- the item the first component of the file-IR sort key reads: `s["name"]` -/
 def irSortKey : Str := kName
 
 /-! ### unstructure -/
@@ -303,21 +304,54 @@ def unSymbol : Symbol → JVal
   | .call n a t l => .obj [(kType, .str tagCall), (kName, .str n), (kArgs, unCallArgs a),
                            (kTarget, unOptTarget t), (kLocation, unLocation l)]
 
-/-- `lambda s: s["name"]` on an unstructured symbol. (A dict without `"name"` would be a
-`KeyError`; unstructured symbols always have it: `jName_unSymbol`.) -/
+/-- `s["name"]` on an unstructured symbol. (A dict without `"name"` would be a `KeyError`;
+unstructured symbols always have it: `jName_unSymbol`.) -/
 def jName : JVal → Str
   | .obj kvs => match JVal.get? kvs irSortKey with
     | some (.str s) => s
     | _ => []
   | _ => []
 
-/-- `sorted(converter.unstructure(<set of symbols>), key=lambda s: s["name"])` -/
+/-! Keys of every object sorted (recursively): what `sort_keys=True` prints. -/
+mutual
+def canon : JVal → JVal
+  | .arr xs => .arr (canonList xs)
+  | .obj kvs => .obj (sortBy strLe (fun p => p.1) (canonKvs kvs))
+  | j => j
+def canonList : List JVal → List JVal
+  | [] => []
+  | a :: r => canon a :: canonList r
+def canonKvs : List (Str × JVal) → List (Str × JVal)
+  | [] => []
+  | (k, a) :: r => (k, canon a) :: canonKvs r
+end
+
+/-- `json.dumps(s, sort_keys=True)` -/
+def dumpSorted (j : JVal) : Str := JVal.renderSp (canon j)
+
+/-- Python's `<=` on a pair of strings (tuple comparison: the first differing component decides). -/
+def pairLe (a b : Str × Str) : Bool :=
+  if a.1 = b.1 then strLe a.2 b.2 else strLe a.1 b.1
+
+/-- `lambda s: (s["name"], json.dumps(s, sort_keys=True))` (since a47e117). -/
+def irKey (j : JVal) : Str × Str := (jName j, dumpSorted j)
+
+/-- `sorted(converter.unstructure(<set of symbols>), key=lambda s: (s["name"], json.dumps(s, sort_keys=True)))` -/
 def unSymbolSet (xs : List Symbol) : JVal :=
-  .arr (sortBy strLe jName (xs.map unSymbol))
+  .arr (sortBy pairLe irKey (xs.map unSymbol))
+
+/-- Decidable check used by the driver: the sort key separates the members of the set (two members
+with one key have one document), i.e. `sorted` cannot meet a tie between different documents. -/
+def sortKeyInjB (xs : List Symbol) : Bool :=
+  xs.all fun a => xs.all fun b =>
+    !(decide (irKey (unSymbol a) = irKey (unSymbol b))) || decide (unSymbol a = unSymbol b)
 
 def unFnIr (ir : FunctionIr) : JVal :=
   .obj [(kGets, unSymbolSet ir.gets), (kSets, unSymbolSet ir.sets),
         (kDels, unSymbolSet ir.dels), (kCalls, unSymbolSet ir.calls)]
+
+def FunctionIr.sortKeyInjB (ir : FunctionIr) : Bool :=
+  Ser.sortKeyInjB ir.gets && Ser.sortKeyInjB ir.sets && Ser.sortKeyInjB ir.dels && Ser.sortKeyInjB ir.calls
 
 /-- `serialise_symbol_table`: the `_symbols` dict as it is (insertion order, its own keys). -/
 def unSymtab (t : List (Str × Symbol)) : JVal := .obj (t.map fun (k, s) => (k, unSymbol s))
